@@ -103,6 +103,8 @@ func init() {
 		Rule: "same world with the private key encoded as i1e / 1:1 / i2e / i-1e / 3:yes / le / de / 1:0 / i0e / 0: / absent, DHT stub and PEX enabled or not, configured private peer-id prefix / client version / user agent, .torrent or magnet start; the client's own classification (Stats().Private) selects the private oracles: no DHT call for the info-hash, no AddNode from port messages, DHT/PEX-only addresses never dialled nor stored, no PEX sent, Magnet() refused, private metadata from a magnet refused with nothing allocated, identity strings as configured; non-trivial if a handshake completed or more than two dials happened; distinct = distinct event-trace hashes among non-trivial runs"}
 	props["C14"] = &propCfg{Scenarios: []scenarioRef{{"registry", 1}}, OwnsCrash: true, Level: "exploration",
 		Rule: "1-4 concurrent API clients add (valid/invalid .torrent, magnet, explicit colliding ids), remove, start, stop, add trackers, list and get torrents in one real session with 2-5 ports, with seeded yields before every mutex acquisition in rain; per phase the recorded invoke/return history is checked with porcupine against a sequential registry model (unique ids, distinct ports, capacity), then quiescent invariants (ids unique, ports distinct and in range, free+owned=range, session == resume DB buckets), CompactDatabase + reopen of the compacted file, Close + NewSession on the same DB with field-by-field comparison, and a resumer Write/Read round trip of 20 generated records; non-trivial always (each run executes >=3 operations and a restart); distinct = distinct event-trace hashes"}
+	props["C17"] = &propCfg{Scenarios: []scenarioRef{{"limits", 3}, {"transfer_byz", 1}}, OwnsCrash: true, Level: "exploration",
+		Rule: "a real session with generated small limits (dial/accept 1-4, addresses 2-20, web seed sources 1-3 / downloads 1-2, write cache 1-4 pieces, read cache 64K-1M, rate limits 8-256 KiB/s, requests in 1-20) under a swarm of 3-9 scripted peers (seeding, leeching, redialling, disconnecting), 0-5 web seeds, bad-handshake actors (silent, garbage, wrong info-hash, dribbling, closing), bursts of bogus addresses and a request flooder that stops reading; every 200 ms the monitor compares transport-level open connections per direction, concurrent web seed requests, contacted web seed sources, Stats()/SessionStats counters and every window of cumulative bytes against the configured limits; failed handshakes must be closed by the SUT; at the end the torrent is stopped and removed and every reservation must be back; non-trivial if a piece write happened or the SUT was pre-seeded; distinct = distinct event-trace hashes"}
 	props["C15"] = &propCfg{Scenarios: []scenarioRef{{"trackers", 1}}, Level: "exploration",
 		Rule: "1-3 torrents announcing to 1-3 tiers of scripted HTTP and UDP trackers whose reply scripts are generated (ok with any 32-bit interval / min interval or none, failure with retry-in, 4xx/5xx, garbage, oversize, no reply, delays; UDP: wrong transaction id, short, duplicate, datagram loss/duplication, connection-id expiry), down windows, start/stop/announce commands, optional seed so that 'completed' happens; every announce is checked online (info-hash, port, peer id vs handshake, counters, event discipline per run, spacing); non-trivial if more than two announces were received; distinct = distinct event-trace hashes among non-trivial runs"}
 	props["C16"] = &propCfg{Scenarios: []scenarioRef{{"trackers", 1}}, OwnsCrash: true, Level: "exploration",
